@@ -31,7 +31,7 @@ COMPONENTS = {
 }
 ASSUMPTIONS = ["pymalloc hands a freed block out again unless it is taken: address-derived hashes are exposed by holding blocks (robust in practice, not guaranteed by the language)"]
 EXPECTED_PROBES = ["alloc_between_hashes", "cross_class_eq", "cross_class_order", "lookup_through_twin", "sorted_heterogeneous",
-                   "basis_kinds_compared", "transitivity_triple", "vinc_vs_cov", "id_reused", "derived_from_used_object", "interrupted_hash"]
+                   "basis_kinds_compared", "transitivity_triple", "vinc_vs_cov", "id_reused", "derived_from_used_object", "interrupted_hash", "flood", "equal_hash_unequal_objects"]
 
 
 def plan(tier):
@@ -145,6 +145,41 @@ def build(d):
 
 
 # --- generation ------------------------------------------------------------------------
+
+_M64 = (1 << 64) - 1
+
+
+def colliding_shadings(n, rng):
+    """Two disjoint, equally large sets of cells of an n-pattern whose frozensets
+    have the same hash (CPython's frozenset hash XORs one scrambled word per
+    element, so a linear dependency over GF(2) among the (n+1)^2 words gives a
+    collision; needs (n+1)^2 > 64, i.e. n = 8).  Unequal objects with equal hashes
+    are legal input; anything keyed by the hash alone confuses them."""
+    def word(cell):
+        h = hash(cell) & _M64
+        return (((h ^ 89869747) ^ ((h << 16) & _M64)) * 3644798167) & _M64
+
+    cells = [(a, b) for a in range(n + 1) for b in range(n + 1)]
+    rng.shuffle(cells)
+    basis = {}
+    for i, c in enumerate(cells):
+        v, mask = word(c), 1 << i
+        while v:
+            p = v.bit_length() - 1
+            if p not in basis:
+                basis[p] = (v, mask)
+                break
+            v ^= basis[p][0]
+            mask ^= basis[p][1]
+        if v == 0:
+            dep = [cells[j] for j in range(len(cells)) if mask >> j & 1]
+            if len(dep) % 2 == 0 and len(dep) >= 2:
+                a, b = dep[: len(dep) // 2], dep[len(dep) // 2:]
+                if hash(frozenset(a)) == hash(frozenset(b)):
+                    rest = [c2 for c2 in cells if c2 not in dep]
+                    return a, b, rest
+    return None
+
 
 
 def _gen_meshlike(rng, maxk):
@@ -293,6 +328,15 @@ def gen_case(rng, tier):
         if d["t"] == "basis" and rng.random() < 0.5:
             # the mesh-basis spelling of the same patterns: never equal to the Basis
             pool.append({"t": "meshbasis", "items": [{"t": "perm", "perm": p, "route": "fresh"} for p in d["perms"]], "route": "args"})
+    if rng.random() < 0.03:
+        # two different mesh patterns with the same hash (and a third one between them)
+        col = colliding_shadings(8, rng)
+        if col is not None:
+            a, b, rest = col
+            common_cells = rest[: rng.randint(0, 6)]
+            perm = common.rand_perm(rng, 8)
+            for cells in (a + common_cells, b + common_cells, sorted(a + common_cells)[:-1] + [max(b)]):
+                pool.append({"t": "mesh", "perm": perm, "shading": [list(c) for c in cells], "order": "given"})
     groups = {}
     for i, d in enumerate(pool):
         groups.setdefault(group(d), []).append(i)
@@ -379,6 +423,17 @@ def gen_case(rng, tier):
                 nd = _neighbour(rng, pool[i])
                 ops.append({"op": "replace", "obj": i, "new": nd, "twin": _twin(rng, nd)})
                 pool[i] = nd
+    if rng.random() < 0.03:
+        # more distinct underlying permutations than any bounded cache is likely to hold
+        ops.insert(rng.randrange(len(ops) + 1), {"op": "flood", "n": rng.choice([1500, 5000]), "then": [pick() for _ in range(4)]})
+    if any(len(d.get("perm", [])) == 8 for d in pool_initial[-3:]) and len(pool_initial) >= 3:
+        k = len(pool_initial)
+        ops.append({"op": "sorted", "idx": [k - 3, k - 2, k - 1, k - 3], "seeds": [rng.getrandbits(30), rng.getrandbits(30)]})
+        ops.append({"op": "cmp", "a": k - 3, "b": k - 2})
+        ops.append({"op": "cmp", "a": k - 2, "b": k - 3})
+        ops.append({"op": "triple", "idx": [k - 3, k - 1, k - 2]})
+        ops.append({"op": "insert", "obj": k - 3, "cont": "dict"})
+        ops.append({"op": "lookup", "obj": k - 2, "cont": "dict"})
     return {"pool": pool_initial, "ops": ops}
 
 
@@ -455,6 +510,8 @@ def execute(case):
                 out.probe("vinc_vs_cov")
             if {_cls(a), _cls(b)} == {"Basis", "MeshBasis"}:
                 out.probe("basis_kinds_compared")
+        if not want and i in first_hash and j in first_hash and first_hash[i] == first_hash[j]:
+            out.probe("equal_hash_unequal_objects")
         if ab is not want or ba is not want or ne is want:
             hist.violate("eq_wrong", {"classes": sorted([_cls(a), _cls(b)])},
                          f"{descs[i]} vs {descs[j]}: a==b {ab}, b==a {ba}, a!=b {ne}; expected equal={want}")
@@ -560,6 +617,11 @@ def execute(case):
             if res is None:
                 continue
             want_eq = expect_eq(i, j)
+            try:
+                if not want_eq and hash(a) == hash(b):
+                    out.probe("equal_hash_unequal_objects")
+            except Exception:  # pylint: disable=broad-except
+                pass
             ok = (res["eq"] is want_eq
                   and (res["lt"] + res["eq"] + res["gt"] == 1)
                   and res["le"] is (res["lt"] or res["eq"])
@@ -695,6 +757,24 @@ def execute(case):
                 if not found:
                     hist.violate("lookup_wrong", {"cont": "set", "cls": _cls(new), "want": True},
                                  f"{op['how']} of {descs[i]} is not found in a set/dict holding the directly built equal pattern")
+        elif kind == "flood":
+            from itertools import islice, permutations  # pylint: disable=import-outside-toplevel
+
+            pm = common.lazy_permuta()
+            for p in islice(permutations(range(7)), op["n"]):
+                pm.MeshPatt(pm.Perm(p), ())
+            alloc_fault("flood_distinct_objects")
+            out.probe("flood")
+            for i in op["then"]:
+                if i < len(descs) and not hist.violations:
+                    try:
+                        objs.append(build(descs[i]))
+                    except Exception as exc:  # pylint: disable=broad-except
+                        hist.violate("exception", {"op": "build", "type": type(exc).__name__}, f"{descs[i]}: {exc}")
+                        break
+                    descs = list(descs) + [descs[i]]
+                    vals.append(vals[i])
+                    check_eq(i, len(objs) - 1)
         elif kind == "replace":
             i = op["obj"]
             check_hash(i, "before replace")
